@@ -59,6 +59,8 @@ class Sym:
                 return 'E'
             if nm == 'num_info_entry_following':
                 return 'R'
+            if nm == 'num_entries':
+                return 'n'
         return None
 
     def lin_of_expr(self, e, env, cond):
@@ -83,6 +85,8 @@ class Sym:
             at = self.atom_of_call(e)
             if at == 'R':
                 return {'R': 1}
+            if at == 'n':
+                return {'n': 1}
             if at in ('V', 'E'):
                 if cond.get(at) is not None:
                     return lin_const(cond[at])
@@ -170,8 +174,8 @@ class Sym:
                 at = self.atom_of_call(e) if e[0] == 'call' else None
                 if at in ('V', 'E'):
                     env[t['d']['l']] = (at, True)
-                elif at == 'R':
-                    env[t['d']['l']] = {'R': 1}
+                elif at in ('R', 'n'):
+                    env[t['d']['l']] = {at: 1}
                 else:
                     v = self.lin_of_expr(e, env, cond) if e[0] != 'call' else None
                     if v is not None:
